@@ -17,6 +17,7 @@ wt = wt_name if wt_name.startswith("/") else f"/tmp/wt/{wt_name}"
 def sh(cmd, cwd=wt, timeout=3000):
     return subprocess.run(cmd, shell=True, cwd=cwd, capture_output=True, text=True, timeout=timeout)
 
+sh("git add -N src")  # new files under src/ belong to the patch
 patch = sh("git diff -- src").stdout
 assert patch.strip(), "no src change in worktree"
 open(f"{wt}/.seed.patch", "w").write(patch)
